@@ -106,6 +106,8 @@ type Conn struct {
 	Log []Op
 	// NoLog switches the operation log off (allocation-sensitive monitors).
 	NoLog bool
+	// WriteErr, when non-nil, makes every Write fail with it (nothing is accepted).
+	WriteErr error
 	out   []byte // all bytes accepted by Write
 
 	// Counted decides which op kinds take part in fault indexing (nil = all).
@@ -291,6 +293,12 @@ func (c *Conn) Write(p []byte) (int, error) {
 		c.log(Op{Kind: OpWrite, Want: len(p), Err: ErrClosed})
 		c.mu.Unlock()
 		return 0, ErrClosed
+	}
+	if c.WriteErr != nil {
+		c.log(Op{Kind: OpWrite, Want: len(p), Err: c.WriteErr})
+		err := c.WriteErr
+		c.mu.Unlock()
+		return 0, err
 	}
 	if fk := c.fault(OpWrite); fk != FaultNone {
 		err := fk.Err()
